@@ -1,7 +1,7 @@
 /- Line-protocol handler for the Fourier spec and model (C12).
 
    term   := <c.re> <c.im> <ph> <th> <kind> <a> <b>          terms separated by `;`
-   kind   := one | delta:n | pw:n | inv1 | inv2 | sgn | step | abs | ramp | rect | tri | sinc | sinc2 | gauss
+   kind   := one | delta:n | pw:n | inv1 | inv2 | sgn | step | abs | ramp | rect | tri | sinc | sinc2 | gauss | sincu | trap:al | sincp:al
              | expu:k:<re>:<im> | cpole:n:<re>:<im>
    entry  := R <lam.re> <lam.im> <mu.re> <mu.im> <phase> <v.re> <v.im> <ts>     ts := - | sinc:a:b,gauss:a:b,...
            | D <n> <loc> <phase> <v.re> <v.im>                                  entries separated by `;`
@@ -36,6 +36,9 @@ def parseKind (s : String) : Option Kind :=
   | ["sinc"] => some .sinc
   | ["sinc2"] => some .sinc2
   | ["gauss"] => some .gauss
+  | ["sincu"] => some .sincu
+  | ["trap", al] => (parseRat al).map .trap
+  | ["sincp", al] => (parseRat al).map .sincp
   | ["expu", k, re, im] => do some (.expu (← k.toNat?) ⟨← parseRat re, ← parseRat im⟩)
   | ["cpole", n, re, im] => do some (.cpole (← n.toNat?) ⟨← parseRat re, ← parseRat im⟩)
   | _ => none
